@@ -33,10 +33,20 @@ Definition holds_C16_read (sec : Z) (d : list Z) (raised : bool) (back : list Z)
   then negb raised && zlist_eqb back (if sec =? 3 then music_norm d else d)
   else true.
 
+(* the empty default of a region (Spec/P8Format.v, "short sections") *)
+Definition spec_default (sec : Z) : list Z :=
+  if sec =? 3 then spec_default_music
+  else if sec =? 4 then spec_default_sfx
+  else repeat 0 (Z.to_nat (sec_size sec)).
+
 (* a file written by PICO-8: the reader's bytes must be the ones whose reference text is the
-   file's text (the reference encodings are injective) *)
+   file's text (the reference encodings are injective) - where the file has fewer rows than the
+   full count (newer PICO-8 versions leave out the empty tail; possibly the whole section) the
+   rows left out are the rows of the empty default, and the region has its full size all the same *)
 Definition holds_C16_file (sec : Z) (file_lines : list (list Z)) (d : list Z) : bool :=
-  lines_eqb (spec_lines sec d) file_lines.
+  (zlen d =? sec_size sec) &&
+  lines_eqb (spec_lines sec d)
+            (file_lines ++ skipn (length file_lines) (spec_lines sec (spec_default sec))).
 
 (* .p8.png pixel: the byte read from a pixel / the pixel written for a byte *)
 Definition holds_C16_unpack (r g b a : Z) (byte_ : Z) : bool := byte_ =? spec_pixel_byte r g b a.
